@@ -170,8 +170,27 @@ func VerifRun_C19() {
 	var decls []c19decl
 	c19collect(fs[0].FileResult.Block, 0, map[string]bool{}, &decls)
 	var flat []common.FileSymbolStruct
-	c19flatten(p.FindFileAllSymbol(file), &flat)
+	tree := p.FindFileAllSymbol(file)
+	c19flatten(tree, &flat)
 	verifReach("outline")
+	// a symbol's range covers the ranges of the symbols listed under it
+	var nest func(v []common.FileSymbolStruct) bool
+	nest = func(v []common.FileSymbolStruct) bool {
+		for i := range v {
+			for j := range v[i].Children {
+				if !c19contains(v[i].Loc, v[i].Children[j].Loc) {
+					return false
+				}
+			}
+			if !nest(v[i].Children) {
+				return false
+			}
+		}
+		return true
+	}
+	if !nest(tree) {
+		verifViolation("", "an outline entry's range does not cover the entries nested under it")
+	}
 	for i := range flat {
 		if !c19inside(src, flat[i].Loc) {
 			verifViolation("", "an outline entry has an ill-formed range (start after end, or outside the document)")
